@@ -10,6 +10,7 @@ import (
 	"io"
 	"os"
 	"path/filepath"
+	"regexp"
 	"runtime"
 	"sort"
 	"strconv"
@@ -92,10 +93,10 @@ func (ld *loader) FindHandlerByType(string) (string, any, error) {
 	return "", nil, blobserver.ErrHandlerTypeNotFound
 }
 func (ld *loader) AllHandlers() (map[string]string, map[string]any) { return nil, nil }
-func (ld *loader) MyPrefix() string                                   { return "/enc/" }
-func (ld *loader) BaseURL() string                                    { return "" }
-func (ld *loader) GetHandlerType(string) string                       { return "" }
-func (ld *loader) GetHandler(p string) (any, error)                   { return ld.GetStorage(p) }
+func (ld *loader) MyPrefix() string                                 { return "/enc/" }
+func (ld *loader) BaseURL() string                                  { return "" }
+func (ld *loader) GetHandlerType(string) string                     { return "" }
+func (ld *loader) GetHandler(p string) (any, error)                 { return ld.GetStorage(p) }
 func (ld *loader) GetStorage(p string) (blobserver.Storage, error) {
 	if s, ok := ld.m[p]; ok {
 		return s, nil
@@ -138,26 +139,26 @@ type harness struct {
 
 	mainG uint64
 
-	mu         sync.Mutex
-	inReceive  bool
-	curKey     string
-	setDone    bool
-	scheduleB  bool // for the receive in progress: hold the index write until the compaction gave up
-	sched      []bool
-	triggers   int
-	aborted    int // compactions that ended without uploading anything
-	packedUp   int // packed meta uploads by compaction goroutines
-	removes    int
-	snaps      []*snapshot
-	acked      []*plain
-	inflight   *plain
-	needles    [][]byte
-	needleDesc []string
-	needleIdx  map[uint64][]int // first 8 bytes of a needle -> needle numbers
-	leaks      []string
-	scannedDel int
-	hookErr    string
-	compNo     int
+	mu                sync.Mutex
+	inReceive         bool
+	curKey            string
+	setDone           bool
+	scheduleB         bool // for the receive in progress: hold the index write until the compaction gave up
+	sched             []bool
+	triggers          int
+	aborted           int // compactions that ended without uploading anything
+	packedUp          int // packed meta uploads by compaction goroutines
+	removes           int
+	snaps             []*snapshot
+	acked             []*plain
+	inflight          *plain
+	needles           [][]byte
+	needleDesc        []string
+	needleIdx         map[uint64][]int // first 8 bytes of a needle -> needle numbers
+	leaks             []string
+	scannedDel        int
+	hookErr           string
+	compNo            int
 	heldForCompaction bool // schedule B: the index write of the receive in progress waited for a compaction goroutine to end
 }
 
@@ -486,6 +487,30 @@ func (h *harness) receive(p *plain, model *vmodel.Map, schedB bool) string {
 	return ""
 }
 
+// receiveFaulty offers p once while one lower-layer call of that receive (made by the receiving
+// goroutine itself) fails transiently; the caller then retries through receive. Whatever the failed
+// attempt left behind, the acknowledged retry must make the blob recoverable from the wrapped stores.
+func (h *harness) receiveFaulty(p *plain, target string, beh vstore.Behaviour) (delivered bool, err error) {
+	h.addNeedles(p)
+	h.mu.Lock()
+	h.inReceive, h.curKey, h.setDone, h.scheduleB, h.inflight, h.heldForCompaction = true, p.ref.String(), false, false, p, false
+	h.mu.Unlock()
+	h.env.Match = func(e *vstore.Event) vstore.Behaviour {
+		if !delivered && goid() == h.mainG && e.Layer+" "+e.Op == target {
+			delivered = true
+			return beh
+		}
+		return vstore.OK
+	}
+	_, err = blobserver.Receive(ctx, h.sto, p.ref, bytes.NewReader(p.data))
+	h.env.Match = nil
+	h.mu.Lock()
+	h.inReceive, h.inflight = false, nil
+	h.mu.Unlock()
+	h.quiesce()
+	return delivered, err
+}
+
 // restart re-creates the encrypt instance; wipe = the local meta index was lost.
 func (h *harness) restart(wipe bool) error {
 	h.quiesce()
@@ -564,12 +589,13 @@ func TestAACompactionProbeWorks(t *testing.T) {
 // (1) histories
 
 type historyCase struct {
-	Class    string   `json:"class"`
-	N        int      `json:"plaintexts"`
-	Sched    []string `json:"schedule_per_compaction_trigger"`
-	Restarts []string `json:"restarts"`
-	Dups     int      `json:"duplicate_receives"`
-	Plains   []*plain `json:"first_plaintexts"`
+	Class          string   `json:"class"`
+	N              int      `json:"plaintexts"`
+	Sched          []string `json:"schedule_per_compaction_trigger"`
+	Restarts       []string `json:"restarts"`
+	Dups           int      `json:"duplicate_receives"`
+	FaultyReceives int      `json:"receives_failed_transiently_then_retried"`
+	Plains         []*plain `json:"first_plaintexts"`
 }
 
 func runHistory(t *rapid.T) {
@@ -624,6 +650,22 @@ func runHistory(t *rapid.T) {
 			hc.Plains = append(hc.Plains, p)
 		}
 		sig = append(sig, p.Seed, p.Size, p.Hash)
+		// an occasional transient failure of one lower-layer call of the receive, followed by the client's retry
+		if rapid.IntRange(0, 24).Draw(t, "faultyReceive") == 0 {
+			target := rapid.SampledFrom([]string{"store:blobs receive", "store:meta receive", "kv:idx set"}).Draw(t, "faultAt")
+			beh := vstore.Fail
+			if strings.HasPrefix(target, "store:") && rapid.Bool().Draw(t, "performedButError") {
+				beh = vstore.FailAfter
+			}
+			delivered, err := h.receiveFaulty(p, target, beh)
+			if err != nil && !delivered {
+				t.Fatalf("C11 harness: receive of %s failed without the injected fault having been delivered: %v", p.ref, err)
+			}
+			if delivered {
+				hc.FaultyReceives++
+				evid.R.Label("history/receive-failed-transiently-then-retried/" + target)
+			}
+		}
 		// the schedule applies if this receive triggers a compaction
 		if h.receive(p, model, sched[trig%len(sched)]) != "" {
 			trig++
@@ -1022,3 +1064,270 @@ func TestTamperEnumeration(t *testing.T) {
 	evid.Check(t, 16, 200, runTamper)
 }
 
+// ---------------------------------------------------------------------------
+// (3) start-up roll-up of very many small meta blobs
+
+// TestStartupRollsUpManySmallMetas: while the meta store refuses large uploads (a bad period of a
+// remote store), every roll-up of the small meta blobs gives up and more than
+// SmallMetaCountLimit^2 single-entry meta blobs accumulate. At the next start the instance reads
+// them all, rolls them up in concurrent groups, and the groups' packed blobs - together more than
+// FullMetaBlobSize entries - are rolled up again, which is the only way to reach the code that cuts
+// one roll-up into several packed blobs. Afterwards the index is lost: every acknowledged blob must be
+// served from the wrapped stores alone. Thorough tier only (10^4 receives per case).
+func TestStartupRollsUpManySmallMetas(t *testing.T) {
+	if !evid.Thorough() && os.Getenv("VERIF_C11_BIG") == "" {
+		t.Skip("thorough tier only")
+	}
+	evid.Check(t, 1, 1, func(t *rapid.T) {
+		h := newHarness(t)
+		defer h.close()
+		h.env.YieldHook, h.env.AfterHook, h.env.BeforeMut = nil, nil, nil // no schedules, no snapshots here
+		per := encrypt.SmallMetaCountLimit + 1
+		n := rapid.IntRange(per*per, per*per+3*per).Draw(t, "plaintexts")
+		if v, _ := strconv.Atoi(os.Getenv("VERIF_C11_N")); v > 0 {
+			n = v
+		}
+		series := rapid.Uint64Range(1, 1<<30).Draw(t, "series")
+		firstWipe := rapid.Bool().Draw(t, "indexLostAtFirstRestart")
+		// the bad period is not total: every k-th packed upload gets through (0 = none), so that packed
+		// meta blobs of different sizes are in the store at the restart as well
+		letThrough := rapid.SampledFrom([]int{0, 0, 2, 3, 5, 9}).Draw(t, "everyKthRollupSucceeds")
+		refused, large := 0, 0
+		h.env.Match = func(e *vstore.Event) vstore.Behaviour {
+			if e.Layer == "store:meta" && e.Op == "receive" && e.N > 4096 {
+				large++
+				if letThrough > 0 && large%letThrough == 0 {
+					return vstore.OK
+				}
+				refused++
+				return vstore.Fail
+			}
+			return vstore.OK
+		}
+		sto, err := h.create()
+		if err != nil {
+			t.Fatalf("C11 harness: cannot create the encrypt storage: %v", err)
+		}
+		h.sto = sto
+		model := vmodel.New()
+		var refs []blob.Ref
+		for i := 0; i < n; i++ {
+			d := []byte(fmt.Sprintf("plaintext %d of series %d", i, series))
+			ref := blob.RefFromBytes(d)
+			sb, err := blobserver.Receive(ctx, h.sto, ref, bytes.NewReader(d))
+			if err != nil || sb.Ref != ref || int(sb.Size) != len(d) {
+				t.Fatalf("C11 violated: receive #%d of %s returned %v, %v (only roll-up uploads to the meta store were refused)", i, ref, sb, err)
+			}
+			model.SetPresent(ref, d)
+			refs = append(refs, ref)
+		}
+		h.quiesce()
+		var upMu sync.Mutex
+		var startupUploads []int // sizes of the packed meta blobs uploaded after the history
+		h.env.Match = func(e *vstore.Event) vstore.Behaviour {
+			if e.Layer == "store:meta" && e.Op == "receive" && e.N > 4096 {
+				upMu.Lock()
+				startupUploads = append(startupUploads, e.N)
+				upMu.Unlock()
+			}
+			return vstore.OK
+		}
+		singles := h.meta.RawLen()
+		verify := func(when string) {
+			for _, r := range refs {
+				if err := model.CheckFetch(ctx, h.sto, r); err != nil {
+					t.Fatalf("C11 violated (recovery) %s: %v\n%d plaintexts, %d roll-up uploads refused during the history, %d meta blobs before the first restart, %d now", when, err, n, refused, singles, h.meta.RawLen())
+				}
+			}
+			if err := model.CheckStat(ctx, h.sto, refs); err != nil {
+				t.Fatalf("C11 violated (recovery) %s: %v", when, err)
+			}
+			if err := model.CheckEnumerate(ctx, h.sto, "", n+10); err != nil {
+				t.Fatalf("C11 violated (recovery) %s: %v", when, err)
+			}
+		}
+		verify("at the end of the history")
+		before := map[string]bool{}
+		for _, r := range h.meta.RawRefs() {
+			before[r.String()] = true
+		}
+		if err := h.restart(firstWipe); err != nil {
+			origin := "unknown"
+			if m := regexp.MustCompile(`meta blob (sha\d+-[0-9a-f]+)`).FindStringSubmatch(err.Error()); m != nil {
+				origin = map[bool]string{true: "it was in the meta store when the start-up began", false: "it was written to the meta store by a roll-up of this very start-up"}[before[m[1]]]
+			}
+			t.Fatalf("C11 violated (recovery): start-up over %d small meta blobs (index wiped: %v) failed: %v\nabout that meta blob: %s; the meta store now holds %d blobs", singles, firstWipe, err, origin, h.meta.RawLen())
+		}
+		h.quiesce()
+		afterFirst := h.meta.RawLen()
+		verify(fmt.Sprintf("after the first restart (index wiped: %v) and its roll-ups", firstWipe))
+		if err := h.restart(true); err != nil {
+			t.Fatalf("C11 violated (recovery): second start-up over a wiped index failed: %v", err)
+		}
+		h.quiesce()
+		verify("after the second restart over a wiped index")
+		evid.R.Eval()
+		evid.R.Label("startup-rollup/history")
+		evid.R.LabelN("startup-rollup/rollup-uploads-refused-during-history", refused)
+		evid.R.LabelN("startup-rollup/small-meta-blobs-at-first-restart", singles)
+		nt := singles > per*per-per && afterFirst < singles/50
+		if nt {
+			evid.R.Label("startup-rollup/rolled-up-in-several-rounds")
+			evid.R.NonTrivial(evid.Hash("startup-rollup", n, series, firstWipe, letThrough))
+		}
+		if evid.R.WantSample(nt) {
+			evid.R.Sample(nt, map[string]any{"kind": "startup-rollup", "plaintexts": n, "rollup_uploads_refused": refused, "meta_blobs_before_first_restart": singles,
+				"meta_blobs_after_first_restart": afterFirst, "meta_blobs_at_end": h.meta.RawLen(), "index_lost_at_first_restart": firstWipe, "sizes_of_packed_meta_uploads_after_the_history": startupUploads, "every_kth_rollup_upload_succeeded_during_history": letThrough})
+		}
+	})
+}
+
+// TestRollupsPileUpBehindSlowMetaStore: the meta store is slow for large uploads for a while, so the
+// packed blobs of many roll-ups (of different sizes: the first one contains the packed blob of the
+// roll-ups that completed before) arrive together when it recovers and are rolled up again in one go -
+// more than FullMetaBlobSize entries, so that this roll-up is cut into several packed blobs with a
+// remainder. Then the index is lost. Thorough tier only (10^4 receives per case).
+func TestRollupsPileUpBehindSlowMetaStore(t *testing.T) {
+	// two cases per shard in the thorough tier
+	if !evid.Thorough() && os.Getenv("VERIF_C11_BIG") == "" {
+		t.Skip("thorough tier only")
+	}
+	evid.Check(t, 1, 2, func(t *rapid.T) {
+		h := newHarness(t)
+		defer h.close()
+		h.env.AfterHook, h.env.BeforeMut = nil, nil
+		var pmu sync.Mutex
+		var pend []chan struct{}
+		slow := false
+		h.env.YieldHook = func(e *vstore.Event) {
+			if e.Layer != "store:meta" || e.Op != "receive" || e.N <= 4096 {
+				return
+			}
+			pmu.Lock()
+			if !slow {
+				pmu.Unlock()
+				return
+			}
+			c := make(chan struct{})
+			pend = append(pend, c)
+			pmu.Unlock()
+			<-c
+		}
+		npend := func() int { pmu.Lock(); defer pmu.Unlock(); return len(pend) }
+		releaseAll := func(order []int) {
+			pmu.Lock()
+			slow = false
+			cs := append([]chan struct{}(nil), pend...)
+			pend = nil
+			pmu.Unlock()
+			done := map[int]bool{}
+			for _, i := range order {
+				if i < len(cs) && !done[i] {
+					done[i] = true
+					close(cs[i])
+				}
+			}
+			for i, c := range cs {
+				if !done[i] {
+					close(c)
+				}
+			}
+		}
+		defer releaseAll(nil)
+		per := encrypt.SmallMetaCountLimit + 1
+		before := rapid.SampledFrom([]int{0, 1, 1, 2, 3}).Draw(t, "rollupsCompletedBeforeTheSlowPeriod")
+		rounds := encrypt.FullMetaBlobSize/per + 1 + rapid.IntRange(0, 4).Draw(t, "extraRounds")
+		// (small meta blobs of later receives would take the place of packed ones among the 101 that are
+		// rolled up together, and the total would stay below FullMetaBlobSize)
+		tail := rapid.SampledFrom([]int{0, 0, 0, 1, 2}).Draw(t, "blobsAfterTheLastRound")
+		series := rapid.Uint64Range(1, 1<<30).Draw(t, "series")
+		order := rapid.Permutation(seq(rounds+2)).Draw(t, "releaseOrder")
+		sto, err := h.create()
+		if err != nil {
+			t.Fatalf("C11 harness: cannot create the encrypt storage: %v", err)
+		}
+		h.sto = sto
+		model := vmodel.New()
+		var refs []blob.Ref
+		upload := func(k int) {
+			for i := 0; i < k; i++ {
+				d := []byte(fmt.Sprintf("plaintext %d of slow series %d", len(refs), series))
+				ref := blob.RefFromBytes(d)
+				sb, err := blobserver.Receive(ctx, h.sto, ref, bytes.NewReader(d))
+				if err != nil || sb.Ref != ref || int(sb.Size) != len(d) {
+					t.Fatalf("C11 violated: receive #%d of %s returned %v, %v (no fault was injected; the meta store is only slow)", len(refs), ref, sb, err)
+				}
+				model.SetPresent(ref, d)
+				refs = append(refs, ref)
+			}
+		}
+		settle := func() bool { // every live roll-up goroutine is parked in the slow upload
+			return waitUntil(func() bool { return compactionsRunning() == npend() })
+		}
+		for i := 0; i < before; i++ {
+			if i == 0 {
+				upload(per)
+			} else {
+				upload(per - 1)
+			}
+			h.quiesce()
+		}
+		pmu.Lock()
+		slow = true
+		pmu.Unlock()
+		for r := 0; r < rounds; r++ {
+			if r == 0 && before > 0 {
+				upload(per - 1) // the packed blob of the completed roll-ups is the 101st small meta blob
+			} else {
+				upload(per)
+			}
+		}
+		upload(tail)
+		if !settle() {
+			t.Fatalf("VERIF-INCONCLUSIVE: roll-up goroutines neither ended nor reached the slow upload within 60s")
+		}
+		piled := npend()
+		releaseAll(order)
+		h.quiesce()
+		verify := func(when string) {
+			for _, r := range refs {
+				if err := model.CheckFetch(ctx, h.sto, r); err != nil {
+					t.Fatalf("C11 violated (recovery) %s: %v\n%d plaintexts, %d roll-ups completed before the slow period, %d packed uploads piled up behind the slow meta store, released in order %v; %d meta blobs now", when, err, len(refs), before, piled, order, h.meta.RawLen())
+				}
+			}
+			if err := model.CheckStat(ctx, h.sto, refs); err != nil {
+				t.Fatalf("C11 violated (recovery) %s: %v", when, err)
+			}
+			if err := model.CheckEnumerate(ctx, h.sto, "", len(refs)+10); err != nil {
+				t.Fatalf("C11 violated (recovery) %s: %v", when, err)
+			}
+		}
+		verify("after the meta store recovered (same instance)")
+		metaAfter := h.meta.RawLen()
+		if err := h.restart(true); err != nil {
+			t.Fatalf("C11 violated (recovery): start-up over a wiped index after the piled-up roll-ups failed: %v", err)
+		}
+		h.quiesce()
+		verify("after a restart over a wiped index")
+		evid.R.Eval()
+		evid.R.Label("slow-meta/history")
+		evid.R.LabelN("slow-meta/packed-uploads-piled-up", piled)
+		nt := piled > encrypt.SmallMetaCountLimit
+		if nt {
+			evid.R.Label("slow-meta/piled-up-packs-rolled-up-together")
+			evid.R.NonTrivial(evid.Hash("slow-meta", before, rounds, tail, series, fmt.Sprint(order)))
+		}
+		if evid.R.WantSample(nt) {
+			evid.R.Sample(nt, map[string]any{"kind": "slow-meta-store", "plaintexts": len(refs), "rollups_completed_before_the_slow_period": before, "rounds_during_the_slow_period": rounds,
+				"packed_uploads_piled_up": piled, "meta_blobs_after_recovery_of_the_meta_store": metaAfter, "meta_blobs_at_end": h.meta.RawLen()})
+		}
+	})
+}
+
+func seq(n int) []int {
+	out := make([]int, n)
+	for i := range out {
+		out[i] = i
+	}
+	return out
+}
